@@ -68,6 +68,23 @@ pub mod control {
         })
     }
 
+    /// Copy of the bytes written but not yet released.
+    pub fn peek_pending(conn: usize, to_server: bool) -> Vec<u8> {
+        NET.with_borrow(|net| {
+            let pipe = &net.conns[conn].pipes[if to_server { 0 } else { 1 }];
+            pipe.data.iter().skip(pipe.released).copied().collect()
+        })
+    }
+
+    /// Closes both directions of a connection as if the peer had gone away.
+    pub fn close(conn: usize) {
+        NET.with_borrow_mut(|net| {
+            for pipe in &mut net.conns[conn].pipes {
+                pipe.closed = true;
+            }
+        });
+    }
+
     /// Makes up to `bytes` more bytes readable; returns how many were released.
     pub fn release(conn: usize, to_server: bool, bytes: usize) -> usize {
         NET.with_borrow_mut(|net| {
